@@ -28,6 +28,19 @@ def short(name):
     return "::".join(out) if out else name
 
 
+_SRC = {}
+
+
+def source_line(rel, line):
+    if rel not in _SRC:
+        try:
+            _SRC[rel] = open("/repo/" + rel, encoding="utf-8", errors="replace").read().splitlines()
+        except OSError:
+            _SRC[rel] = []
+    ls = _SRC[rel]
+    return ls[line - 1].strip() if 0 < line <= len(ls) else "?"
+
+
 def main():
     exp = json.load(open(sys.argv[1]))
     report = open(sys.argv[2]).read()
@@ -43,7 +56,7 @@ def main():
         key = (files[0].split("/repo/")[1], r0[0])
         rec = funcs.setdefault(key, {"count": 0, "names": set(), "regions": 0, "hit": 0})
         rec["count"] = max(rec["count"], f["count"])
-        rec["names"].add(short(f["name"]))
+        rec["names"].add(source_line(key[0], key[1]))
         regs = [r for r in f["regions"] if r[7] == 0]  # code regions
         hit = sum(1 for r in regs if r[4] > 0)
         if len(regs) >= rec["regions"]:
@@ -56,7 +69,10 @@ def main():
     print("## Per file (llvm-cov report; generic functions are counted once per instantiation)\n")
     print("```")
     for line in report.splitlines():
-        line = line.replace("/repo/src/", "")
+        if "/.rustup/" in line:
+            continue
+        line = re.sub(r"^repo/src/", "", line)
+        line = re.sub(r" {40,}", "    ", line, count=1)
         print(re.sub(r"\s+$", "", line))
     print("```\n")
     never = sorted(k for k, v in funcs.items() if v["count"] == 0)
